@@ -12,7 +12,7 @@ def RefinesL (op : M α) (s : Sys) (r : α) (xs' : List Elem) (evs : List Event)
 
 /-- the ledger entries (newest first) of destroying `es` in order -/
 def dropEvents (k : Kind) (es : List Elem) : List Event :=
-  if k = .byte then [] else (es.map fun e => Event.dropped e.id).reverse
+  if k = .byte ∨ k = .plain then [] else (es.map fun e => Event.dropped e.id).reverse
 
 theorem dropEvents_nil (k : Kind) : dropEvents k [] = [] := by simp [dropEvents]
 
@@ -26,7 +26,7 @@ theorem dropElem_run (s : Sys) (e : Elem) (hf : s.faults.drop = 0) :
   obtain ⟨d, c, ca, nx, eq⟩ := f
   simp only at hf; subst hf
   unfold dropElem dropEvents tick
-  by_cases hk : k = .byte
+  by_cases hk : k = .byte ∨ k = .plain
   · simp [hk]
   · simp [hk]
 
